@@ -1,17 +1,729 @@
-//! (profile module)
-use crate::monitors::TxnKind;
-use crate::world::*;
+//! C14 `sticky` (sticky indexes keep pointing at the same place) and C20 `weak` (quotations and
+//! links show the current content of their source). Both oracles know exactly where a deleted
+//! anchor / boundary element used to be from the item sequence of the branch (hook
+//! `yrs::verif::branch_items`), and compute anchors and boundaries themselves at creation time —
+//! independently of the ids the library picked.
 
-pub fn pre_txn(_w: &mut World, _n: usize) {}
-pub fn post_txn(_w: &mut World, _n: usize, _kind: &TxnKind, _uid: Option<usize>) -> VResult {
+use crate::dump;
+use crate::monitors::TxnKind;
+use crate::ops::{self, Kind, Tgt};
+use crate::world::*;
+use std::sync::atomic::{AtomicU64, Ordering};
+use std::sync::Arc;
+use yrs::branch::{Branch, BranchPtr};
+use yrs::updates::decoder::Decode;
+use yrs::updates::encoder::Encode;
+use yrs::{
+    Array, ArrayRef, Assoc, GetString, IndexedSequence, Map, MapRef, Observable, OffsetKind, Out, Quotable, ReadTxn, StickyIndex, Subscription,
+    TextRef, Transact, WeakRef, XmlFragmentRef, XmlTextRef,
+};
+
+#[derive(Clone, Debug)]
+pub struct Unit {
+    pub client: u64,
+    pub clock: u32,
+    pub clocks: u32,
+    pub deleted: bool,
+    pub countable: bool,
+    pub ch: Option<char>,
+    pub val: Option<String>,
+}
+
+impl Unit {
+    fn contains(&self, id: (u64, u32)) -> bool {
+        self.client == id.0 && id.1 >= self.clock && id.1 < self.clock + self.clocks
+    }
+    fn visible(&self) -> bool {
+        !self.deleted && self.countable
+    }
+    fn len(&self, ok: OffsetKind) -> u32 {
+        match self.ch {
+            Some(c) => match ok {
+                OffsetKind::Bytes => c.len_utf8() as u32,
+                OffsetKind::Utf16 => c.len_utf16() as u32,
+            },
+            None => 1,
+        }
+    }
+}
+
+/// the item sequence of a branch, unit by unit, tombstones included
+pub fn units_of(b: &Branch) -> Vec<Unit> {
+    let mut out = Vec::new();
+    for it in yrs::verif::branch_items(&BranchPtr::from(b)) {
+        let client = it.id.client.get();
+        if let (Some(text), false) = (&it.text, false) {
+            let mut off = 0u32;
+            for c in text.chars() {
+                let k = c.len_utf16() as u32;
+                out.push(Unit {
+                    client,
+                    clock: it.id.clock + off,
+                    clocks: k,
+                    deleted: it.deleted,
+                    countable: it.countable,
+                    ch: Some(c),
+                    val: Some(c.to_string()),
+                });
+                off += k;
+            }
+            continue;
+        }
+        if let Some(any) = &it.any {
+            for (i, a) in any.iter().enumerate() {
+                out.push(Unit {
+                    client,
+                    clock: it.id.clock + i as u32,
+                    clocks: 1,
+                    deleted: it.deleted,
+                    countable: it.countable,
+                    ch: None,
+                    val: Some(dump::any_str(a)),
+                });
+            }
+            continue;
+        }
+        let val = if it.kind == "type" { Some(format!("{:?}", Tgt::N(client, it.id.clock))) } else { Some(it.kind.to_string()) };
+        out.push(Unit {
+            client,
+            clock: it.id.clock,
+            clocks: it.len.max(1),
+            deleted: it.deleted || it.kind == "deleted",
+            countable: it.countable,
+            ch: None,
+            val,
+        });
+    }
+    out
+}
+
+fn pos_of(units: &[Unit], id: (u64, u32)) -> Option<usize> {
+    units.iter().position(|u| u.contains(id))
+}
+
+pub struct StickyRec {
+    pub si: StickyIndex,
+    pub cont: Tgt,
+    pub kind: Kind,
+    pub after: bool,
+    /// the element the index is anchored to (computed by the harness), None = start/end of the collection
+    pub anchor: Option<(u64, u32)>,
+    pub eid: u32,
+    /// created on a replica that counts in bytes while the collection held non-ASCII text (F12)
+    pub made_bytes_nonascii: bool,
+}
+
+pub struct QuoteRec {
+    pub link: Tgt,
+    pub src: Tgt,
+    pub kind: Kind,
+    pub s: (u64, u32),
+    pub e: (u64, u32),
+    pub incl_end: bool,
+    pub node: usize,
+    pub fired: Arc<AtomicU64>,
+    pub last: Option<String>,
+    pub sub: Option<Subscription>,
+    pub eid: u32,
+}
+
+pub struct MapLinkRec {
+    pub link: Tgt,
+    pub key: String,
+}
+
+#[derive(Default)]
+pub struct StickyState {
+    pub stickies: Vec<StickyRec>,
+    pub quotes: Vec<QuoteRec>,
+    pub maplinks: Vec<MapLinkRec>,
+    pub n_links: u32,
+}
+
+fn branch_of<T: ReadTxn>(txn: &T, tgt: &Tgt, kind: Kind) -> Option<BranchPtr> {
+    ops::resolve(txn, tgt, kind)
+}
+
+fn is_seq(k: Kind) -> bool {
+    matches!(k, Kind::Text | Kind::XmlText | Kind::Array | Kind::XmlFragment | Kind::XmlElement)
+}
+
+pub fn pre_txn(w: &mut World, n: usize) {
+    let o = crate::seqmon::observe_seq(&w.nodes[n].doc.transact());
+    crate::seqmon::set_pre(o);
+}
+
+pub fn post_txn(w: &mut World, n: usize, kind: &TxnKind, uid: Option<usize>) -> VResult {
+    // the C04 machinery rides along (attribution + order relation keep the workload honest)
+    let prof = w.cfg.profile.clone();
+    if let Some(e) = w.mon.sp.seq.placement_err.take() {
+        return Err(viol(&format!("{}.placement", prof), format!("node {}: {}", n, e)));
+    }
+    let obs = crate::seqmon::observe_seq(&w.nodes[n].doc.transact());
+    crate::seqmon::attribute_seq(w, n, kind, uid, &obs);
+    w.stats.oracle_evals += 1;
+    check_node(w, n)
+}
+
+pub fn at_quiescence(w: &mut World) -> VResult {
+    for n in 0..w.nodes.len() {
+        check_node(w, n)?;
+    }
     Ok(())
 }
-pub fn at_quiescence(_w: &mut World) -> VResult {
+
+fn check_node(w: &mut World, n: usize) -> VResult {
+    if w.cfg.profile == "sticky" {
+        check_stickies(w, n)
+    } else {
+        check_quotes(w, n)
+    }
+}
+
+// ---- C14 -----------------------------------------------------------------------------------------
+
+fn check_stickies(w: &mut World, n: usize) -> VResult {
+    let doc = w.nodes[n].doc.clone();
+    let ok = doc.offset_kind();
+    let txn = doc.transact();
+    let mut probes: Vec<&'static str> = Vec::new();
+    for r in w.mon.sticky.stickies.iter() {
+        let Some(ptr) = branch_of(&txn, &r.cont, r.kind) else { continue };
+        let units = units_of(&ptr);
+        let total: u32 = units.iter().filter(|u| u.visible()).map(|u| u.len(ok)).sum();
+        let expected = match r.anchor {
+            None => {
+                if r.after {
+                    total
+                } else {
+                    0
+                }
+            }
+            Some(a) => {
+                let Some(p) = pos_of(&units, a) else { continue }; // the anchoring element is not known here yet
+                let before: u32 = units[..p].iter().filter(|u| u.visible()).map(|u| u.len(ok)).sum();
+                if units[p].visible() {
+                    probes.push("sticky.anchor-visible");
+                    if r.after {
+                        before
+                    } else {
+                        before + units[p].len(ok)
+                    }
+                } else {
+                    probes.push("sticky.anchor-deleted");
+                    before
+                }
+            }
+        };
+        let got = r.si.get_offset(&txn);
+        match got {
+            Some(off) if off.index == expected => {}
+            other => {
+                let vis: String = units.iter().filter(|u| u.visible()).map(|u| u.val.clone().unwrap_or_default()).collect::<Vec<_>>().join("");
+                return Err(viol(
+                    if r.made_bytes_nonascii || (ok == OffsetKind::Bytes && vis.chars().any(|c| c.len_utf8() != c.len_utf16())) {
+                        "sticky.offset-bytes-nonascii"
+                    } else {
+                        "sticky.offset"
+                    },
+                    format!(
+                        "node {} ({:?} offsets): sticky index created at event {} in {:?} (assoc {}, anchor element {:?}) resolves to {:?}, expected {} — visible content {:?}, anchor {}",
+                        n,
+                        ok,
+                        r.eid,
+                        r.cont,
+                        if r.after { "After" } else { "Before" },
+                        r.anchor,
+                        other.map(|o| o.index),
+                        expected,
+                        vis,
+                        match r.anchor.and_then(|a| pos_of(&units, a)) {
+                            Some(p) if units[p].visible() => "visible",
+                            Some(_) => "deleted",
+                            None => "none",
+                        }
+                    ),
+                ));
+            }
+        }
+    }
+    drop(txn);
+    for p in probes {
+        w.probe(p);
+    }
     Ok(())
 }
-pub fn draw(_w: &mut World) -> Option<Ev> {
-    None
+
+fn create_sticky(w: &mut World, n: usize, a: &[u64], s: &[String]) -> VResult {
+    let Some(tj) = s.first() else { return Ok(()) };
+    let Ok(cont) = serde_json::from_str::<Tgt>(tj) else { return Ok(()) };
+    let doc = w.nodes[n].doc.clone();
+    let ok = doc.offset_kind();
+    let txn = doc.transact();
+    let Some((ptr, kind)) = ops::resolve_any(&txn, &cont) else { return Ok(()) };
+    if !is_seq(kind) {
+        return Ok(());
+    }
+    let units = units_of(&ptr);
+    let vis: Vec<usize> = (0..units.len()).filter(|i| units[*i].visible()).collect();
+    let p = (a.first().copied().unwrap_or(0) as usize) % (vis.len() + 1);
+    let after = a.get(1).copied().unwrap_or(0) == 0;
+    let ship = a.get(2).copied().unwrap_or(0);
+    let index: u32 = vis[..p].iter().map(|i| units[*i].len(ok)).sum();
+    let assoc = if after { Assoc::After } else { Assoc::Before };
+    let si = match kind {
+        Kind::Text => TextRef::from(ptr).sticky_index(&txn, index, assoc),
+        Kind::XmlText => XmlTextRef::from(ptr).sticky_index(&txn, index, assoc),
+        Kind::Array => ArrayRef::from(ptr).sticky_index(&txn, index, assoc),
+        _ => XmlFragmentRef::from(ptr).sticky_index(&txn, index, assoc),
+    };
+    drop(txn);
+    let Some(si) = si else {
+        // (After at the very end cannot be created: the API returns None)
+        w.probe("sticky.create-none");
+        return Ok(());
+    };
+    // survives binary and JSON serialization
+    let si = match ship {
+        1 => match StickyIndex::decode_v1(&si.encode_v1()) {
+            Ok(x) if x == si => x,
+            other => {
+                return Err(viol(
+                    "sticky.roundtrip",
+                    format!("sticky index {:?} changed by binary encode/decode: {:?}", si, other.ok()),
+                ))
+            }
+        },
+        2 => {
+            let j = serde_json::to_string(&si).unwrap_or_default();
+            match serde_json::from_str::<StickyIndex>(&j) {
+                Ok(x) if x == si => x,
+                other => {
+                    return Err(viol(
+                        "sticky.roundtrip",
+                        format!("sticky index {:?} changed by JSON round trip ({}): {:?}", si, j, other.ok()),
+                    ))
+                }
+            }
+        }
+        _ => si,
+    };
+    let anchor = if after {
+        vis.get(p).map(|i| (units[*i].client, units[*i].clock))
+    } else if p > 0 {
+        let u = &units[vis[p - 1]];
+        Some((u.client, u.clock))
+    } else {
+        None
+    };
+    if vis.is_empty() {
+        w.probe("sticky.on-empty-collection");
+    }
+    let made_bytes_nonascii = ok == OffsetKind::Bytes && units.iter().any(|u| u.ch.map(|c| c.len_utf8() != c.len_utf16()).unwrap_or(false));
+    w.mon.sticky.stickies.push(StickyRec {
+        si,
+        cont,
+        kind,
+        after,
+        anchor,
+        eid: w.cur_eid,
+        made_bytes_nonascii,
+    });
+    check_stickies(w, n)
 }
-pub fn exec(_w: &mut World, _n: usize, _k: &str, _a: &[u64], _s: &[String]) -> VResult {
+
+// ---- C20 -----------------------------------------------------------------------------------------
+
+fn deref_quote<T: ReadTxn>(txn: &T, link: BranchPtr, kind: Kind) -> String {
+    match kind {
+        Kind::Text => WeakRef::<TextRef>::from(link).get_string(txn),
+        Kind::XmlText => {
+            // unformatted source text: the plain string
+            let w = WeakRef::<XmlTextRef>::from(link);
+            w.get_string(txn)
+        }
+        _ => {
+            let w = WeakRef::<ArrayRef>::from(link);
+            let vals: Vec<Out> = w.unquote(txn).collect();
+            vals.iter()
+                .map(|o| match o {
+                    Out::Any(a) => dump::any_str(a),
+                    other => {
+                        let mut s = String::new();
+                        match other {
+                            Out::YText(t) => s = format!("{:?}", Tgt::from_branch_id(yrs::SharedRef::hook(t).id())),
+                            Out::YArray(t) => s = format!("{:?}", Tgt::from_branch_id(yrs::SharedRef::hook(t).id())),
+                            Out::YMap(t) => s = format!("{:?}", Tgt::from_branch_id(yrs::SharedRef::hook(t).id())),
+                            Out::YXmlElement(t) => s = format!("{:?}", Tgt::from_branch_id(yrs::SharedRef::hook(t).id())),
+                            Out::YXmlText(t) => s = format!("{:?}", Tgt::from_branch_id(yrs::SharedRef::hook(t).id())),
+                            Out::YXmlFragment(t) => s = format!("{:?}", Tgt::from_branch_id(yrs::SharedRef::hook(t).id())),
+                            o => dump::dump_out(txn, o, &mut s),
+                        }
+                        s
+                    }
+                })
+                .collect::<Vec<_>>()
+                .join(",")
+        }
+    }
+}
+
+fn expected_quote(units: &[Unit], r: &QuoteRec) -> Option<String> {
+    let ps = pos_of(units, r.s)?;
+    let pe = pos_of(units, r.e)?;
+    if pe < ps {
+        return Some(String::new());
+    }
+    let hi = if r.incl_end { pe + 1 } else { pe };
+    let vals: Vec<String> = units[ps..hi.max(ps)].iter().filter(|u| u.visible()).map(|u| u.val.clone().unwrap_or_default()).collect();
+    Some(if matches!(r.kind, Kind::Text | Kind::XmlText) { vals.join("") } else { vals.join(",") })
+}
+
+fn link_ptr<T: ReadTxn>(txn: &T, link: &Tgt) -> Option<BranchPtr> {
+    let ptr = link.to_branch_id().get_branch(txn)?;
+    if ptr.is_deleted() {
+        return None;
+    }
+    match ptr.type_ref() {
+        yrs::types::TypeRef::WeakLink(_) => Some(ptr),
+        _ => None,
+    }
+}
+
+fn check_quotes(w: &mut World, n: usize) -> VResult {
+    let doc = w.nodes[n].doc.clone();
+    let txn = doc.transact();
+    let mut probes: Vec<&'static str> = Vec::new();
+    let mut updates: Vec<(usize, String)> = Vec::new();
+    for (qi, r) in w.mon.sticky.quotes.iter().enumerate() {
+        let Some(lp) = link_ptr(&txn, &r.link) else { continue };
+        let Some(src) = branch_of(&txn, &r.src, r.kind) else { continue };
+        let units = units_of(&src);
+        let Some(expected) = expected_quote(&units, r) else { continue };
+        let got = deref_quote(&txn, lp, r.kind);
+        let s_vis = pos_of(&units, r.s).map(|p| units[p].visible()).unwrap_or(false);
+        let e_vis = pos_of(&units, r.e).map(|p| units[p].visible()).unwrap_or(false);
+        probes.push(if s_vis && e_vis { "weak.boundaries-visible" } else { "weak.boundary-deleted" });
+        if got != expected {
+            return Err(viol(
+                "weak.range",
+                format!(
+                    "node {}: quotation {:?} of {:?} (made at event {} on node {}, boundary elements {:?}..{}{:?}) dereferences to {:?} but the elements visible between its boundary elements are {:?}\n  source: {:?}",
+                    n,
+                    r.link,
+                    r.src,
+                    r.eid,
+                    r.node,
+                    r.s,
+                    if r.incl_end { "=" } else { "" },
+                    r.e,
+                    got,
+                    expected,
+                    units.iter().map(|u| format!("{}{}", u.val.clone().unwrap_or_default(), if u.visible() { "" } else { "\u{0336}" })).collect::<Vec<_>>().join(" ")
+                ),
+            ));
+        }
+        if r.node == n {
+            // observers of a quotation are notified when content inside its range changes
+            if let Some(last) = &r.last {
+                if *last != got && r.fired.load(Ordering::SeqCst) == 0 {
+                    return Err(viol(
+                        "weak.not-notified",
+                        format!(
+                            "node {}: the content of quotation {:?} changed from {:?} to {:?} but its observer was not notified",
+                            n, r.link, last, got
+                        ),
+                    ));
+                }
+                if *last != got {
+                    probes.push("weak.notified-on-change");
+                }
+            }
+            updates.push((qi, got));
+        }
+    }
+    // links to map entries
+    if let Some(m) = txn.get_map(dump::ROOT_MAP) {
+        for r in w.mon.sticky.maplinks.iter() {
+            let Some(lp) = link_ptr(&txn, &r.link) else { continue };
+            let wr = WeakRef::<MapRef>::from(lp);
+            let got = wr.try_deref_value(&txn).map(|o| {
+                let mut s = String::new();
+                dump::dump_out(&txn, &o, &mut s);
+                s
+            });
+            let want = m.get(&txn, &r.key).map(|o| {
+                let mut s = String::new();
+                dump::dump_out(&txn, &o, &mut s);
+                s
+            });
+            probes.push(if want.is_some() { "weak.maplink-present" } else { "weak.maplink-removed" });
+            if got != want {
+                return Err(viol(
+                    "weak.maplink",
+                    format!("node {}: link {:?} to map entry {:?} dereferences to {:?} but the entry is {:?}", n, r.link, r.key, got, want),
+                ));
+            }
+        }
+    }
+    drop(txn);
+    for (qi, got) in updates {
+        w.mon.sticky.quotes[qi].last = Some(got);
+        w.mon.sticky.quotes[qi].fired.store(0, Ordering::SeqCst);
+    }
+    for p in probes {
+        w.probe(p);
+    }
     Ok(())
+}
+
+/// one local transaction made by a special event; goes through the normal ledger path
+fn local_txn<F: FnOnce(&mut yrs::TransactionMut)>(w: &mut World, n: usize, f: F) -> VResult {
+    let pre = crate::monitors::pre_txn(w, n);
+    {
+        let doc = w.nodes[n].doc.clone();
+        let mut txn = doc.transact_mut();
+        f(&mut txn);
+    }
+    let uid = w.collect_emission(n, true)?;
+    // the C04 attribution must not see this as a tagged change: PRE_SEQ was set by pre_txn
+    crate::monitors::post_txn(w, n, TxnKind::Local, uid, pre, &[])
+}
+
+fn create_quote(w: &mut World, n: usize, a: &[u64], s: &[String]) -> VResult {
+    let Some(tj) = s.first() else { return Ok(()) };
+    let Ok(src) = serde_json::from_str::<Tgt>(tj) else { return Ok(()) };
+    let doc = w.nodes[n].doc.clone();
+    let ok = doc.offset_kind();
+    let (kind, s_id, e_id, lo, hi, incl) = {
+        let txn = doc.transact();
+        let Some((ptr, kind)) = ops::resolve_any(&txn, &src) else { return Ok(()) };
+        if !matches!(kind, Kind::Text | Kind::XmlText | Kind::Array) {
+            return Ok(());
+        }
+        let units = units_of(&ptr);
+        let vis: Vec<usize> = (0..units.len()).filter(|i| units[*i].visible()).collect();
+        if vis.is_empty() {
+            return Ok(());
+        }
+        let start = (a.first().copied().unwrap_or(0) as usize) % vis.len();
+        let incl = a.get(2).copied().unwrap_or(0) == 0;
+        let span = (a.get(1).copied().unwrap_or(0) as usize) % (vis.len() - start);
+        // inclusive: start..=start+span ; exclusive: start..start+span (span >= 1, end index must exist)
+        let end = start + span;
+        if !incl && span == 0 {
+            return Ok(());
+        }
+        let off = |k: usize| -> u32 { vis[..k].iter().map(|i| units[*i].len(ok)).sum() };
+        let su = &units[vis[start]];
+        let eu = &units[vis[end]];
+        (kind, (su.client, su.clock), (eu.client, eu.clock), off(start), off(end), incl)
+    };
+    let key = format!("q{}", w.mon.sticky.n_links);
+    w.mon.sticky.n_links += 1;
+    let mut created: Option<Tgt> = None;
+    let mut err: Option<String> = None;
+    local_txn(w, n, |txn| {
+        let Some(ptr) = ops::resolve(txn, &src, kind) else { return };
+        let m = match txn.get_map(dump::ROOT_MAP) {
+            Some(m) => m,
+            None => return,
+        };
+        macro_rules! doq {
+            ($t:ty) => {{
+                let r = <$t>::from(ptr);
+                let q = if incl { r.quote(txn, lo..=hi) } else { r.quote(txn, lo..hi) };
+                match q {
+                    Ok(p) => {
+                        let l = m.insert(txn, key.as_str(), p);
+                        created = Some(Tgt::from_branch_id(yrs::SharedRef::hook(&l).id()));
+                    }
+                    Err(e) => err = Some(e.to_string()),
+                }
+            }};
+        }
+        match kind {
+            Kind::Text => doq!(TextRef),
+            Kind::XmlText => doq!(XmlTextRef),
+            _ => doq!(ArrayRef),
+        }
+    })?;
+    if let Some(e) = err {
+        return Err(viol(
+            "weak.quote-error",
+            format!("node {}: quoting the in-range {} {}..{}{} of {:?} failed: {}", n, if incl { "inclusive" } else { "exclusive" }, lo, if incl { "=" } else { "" }, hi, src, e),
+        ));
+    }
+    let Some(link) = created else { return Ok(()) };
+    // observer on the creating replica
+    let fired = Arc::new(AtomicU64::new(0));
+    let sub = {
+        let txn = doc.transact();
+        link_ptr(&txn, &link).map(|lp| {
+            let f = fired.clone();
+            let wr = WeakRef::<BranchPtr>::from(lp);
+            wr.observe(move |_, _| {
+                f.fetch_add(1, Ordering::SeqCst);
+            })
+        })
+    };
+    w.mon.sticky.quotes.push(QuoteRec {
+        link,
+        src,
+        kind,
+        s: s_id,
+        e: e_id,
+        incl_end: incl,
+        node: n,
+        fired,
+        last: None,
+        sub,
+        eid: w.cur_eid,
+    });
+    check_quotes(w, n)
+}
+
+fn delete_quote(w: &mut World, n: usize, a: &[u64]) -> VResult {
+    if w.mon.sticky.quotes.is_empty() {
+        return Ok(());
+    }
+    let qi = (a.first().copied().unwrap_or(0) as usize) % w.mon.sticky.quotes.len();
+    let (link, src, kind) = {
+        let r = &w.mon.sticky.quotes[qi];
+        (r.link.clone(), r.src.clone(), r.kind)
+    };
+    let doc = w.nodes[n].doc.clone();
+    let before = {
+        let txn = doc.transact();
+        if link_ptr(&txn, &link).is_none() {
+            return Ok(());
+        }
+        branch_of(&txn, &src, kind).map(|p| units_of(&p).iter().filter(|u| u.visible()).map(|u| u.val.clone().unwrap_or_default()).collect::<Vec<_>>())
+    };
+    // find the key holding this link
+    let key = {
+        let txn = doc.transact();
+        let Some(m) = txn.get_map(dump::ROOT_MAP) else { return Ok(()) };
+        let mut found = None;
+        for (k, v) in m.iter(&txn) {
+            if let Out::YWeakLink(wl) = v {
+                if Tgt::from_branch_id(yrs::SharedRef::hook(&wl).id()) == link {
+                    found = Some(k.to_string());
+                }
+            }
+        }
+        found
+    };
+    let Some(key) = key else { return Ok(()) };
+    local_txn(w, n, |txn| {
+        if let Some(m) = txn.get_map(dump::ROOT_MAP) {
+            m.remove(txn, &key);
+        }
+    })?;
+    let after = {
+        let txn = doc.transact();
+        branch_of(&txn, &src, kind).map(|p| units_of(&p).iter().filter(|u| u.visible()).map(|u| u.val.clone().unwrap_or_default()).collect::<Vec<_>>())
+    };
+    w.probe("weak.quote-deleted");
+    if before != after {
+        return Err(viol(
+            "weak.delete-touched-source",
+            format!("node {}: deleting quotation {:?} changed its source {:?}: {:?} -> {:?}", n, link, src, before, after),
+        ));
+    }
+    Ok(())
+}
+
+fn map_write(w: &mut World, n: usize, a: &[u64], s: &[String], del: bool) -> VResult {
+    let key = s.first().cloned().unwrap_or_else(|| "d0".into());
+    let v = a.first().copied().unwrap_or(0) as i64;
+    local_txn(w, n, |txn| {
+        if let Some(m) = txn.get_map(dump::ROOT_MAP) {
+            if del {
+                m.remove(txn, &key);
+            } else {
+                m.insert(txn, key.as_str(), yrs::Any::BigInt(v));
+            }
+        }
+    })
+}
+
+fn map_link(w: &mut World, n: usize, s: &[String]) -> VResult {
+    let key = s.first().cloned().unwrap_or_else(|| "d0".into());
+    let lkey = format!("l{}", w.mon.sticky.n_links);
+    w.mon.sticky.n_links += 1;
+    let mut created = None;
+    local_txn(w, n, |txn| {
+        if let Some(m) = txn.get_map(dump::ROOT_MAP) {
+            if let Some(p) = m.link(txn, &key) {
+                let l = m.insert(txn, lkey.as_str(), p);
+                created = Some(Tgt::from_branch_id(yrs::SharedRef::hook(&l).id()));
+            }
+        }
+    })?;
+    if let Some(link) = created {
+        w.mon.sticky.maplinks.push(MapLinkRec { link, key });
+    }
+    check_quotes(w, n)
+}
+
+// ---- events --------------------------------------------------------------------------------------
+
+pub fn draw(w: &mut World) -> Option<Ev> {
+    let n = w.rng.idx(w.nodes.len());
+    let types: Vec<ops::TypeInfo> = ops::walk(&w.nodes[n].doc.transact()).into_iter().filter(|t| is_seq(t.kind)).collect();
+    if w.cfg.profile == "sticky" {
+        if types.is_empty() {
+            return None;
+        }
+        let t = w.rng.pick(&types).clone();
+        let pos = match w.rng.below(5) {
+            0 => 0,
+            1 => t.len as u64,
+            _ => w.rng.below(t.len as u64 + 1),
+        };
+        return Some(Ev::Special {
+            n,
+            k: "sticky".into(),
+            a: vec![pos, w.rng.below(2), w.rng.below(3)],
+            s: vec![serde_json::to_string(&t.tgt).unwrap()],
+        });
+    }
+    // weak
+    match w.rng.below(10) {
+        0..=4 => {
+            let qs: Vec<ops::TypeInfo> = types.into_iter().filter(|t| matches!(t.kind, Kind::Text | Kind::XmlText | Kind::Array) && t.len > 0).collect();
+            if qs.is_empty() {
+                return None;
+            }
+            let t = w.rng.pick(&qs).clone();
+            let start = w.rng.below(t.len as u64);
+            let span = match w.rng.below(4) {
+                0 => 0,
+                _ => w.rng.below(t.len as u64 - start),
+            };
+            Some(Ev::Special {
+                n,
+                k: "quote".into(),
+                a: vec![start, span, w.rng.below(2)],
+                s: vec![serde_json::to_string(&t.tgt).unwrap()],
+            })
+        }
+        5 => Some(Ev::Special { n, k: "qdelete".into(), a: vec![w.rng.below(8)], s: vec![] }),
+        6..=7 => Some(Ev::Special { n, k: "mapset".into(), a: vec![w.tags.int() as u64], s: vec![format!("d{}", w.rng.below(3))] }),
+        8 => Some(Ev::Special { n, k: "mapdel".into(), a: vec![], s: vec![format!("d{}", w.rng.below(3))] }),
+        _ => Some(Ev::Special { n, k: "maplink".into(), a: vec![], s: vec![format!("d{}", w.rng.below(3))] }),
+    }
+}
+
+pub fn exec(w: &mut World, n: usize, k: &str, a: &[u64], s: &[String]) -> VResult {
+    match k {
+        "sticky" => create_sticky(w, n, a, s),
+        "quote" => create_quote(w, n, a, s),
+        "qdelete" => delete_quote(w, n, a),
+        "mapset" => map_write(w, n, a, s, false),
+        "mapdel" => map_write(w, n, a, s, true),
+        "maplink" => map_link(w, n, s),
+        _ => Ok(()),
+    }
 }
